@@ -477,7 +477,7 @@ Definition step_subtree (g : graph) (k : N) : list N :=
 
 (* UPDATE node SET detached = b for the nodes ks (fires step_node_check_ready_detached per row
    whose value really changes) *)
-Definition set_detached_nodes (g : graph) (ks : list N) (b : bool) : graph :=
+Definition set_detached_nodes_core (g : graph) (ks : list N) (b : bool) : graph :=
   let flipped :=
       map s_key (filter (fun s => mem_N (s_key s) ks && negb (Bool.eqb (s_detached s) b)) (g_steps g))
       ++ map f_key (filter (fun f => mem_N (f_key f) ks && negb (Bool.eqb (f_detached f) b)) (g_files g))
@@ -489,6 +489,22 @@ Definition set_detached_nodes (g : graph) (ks : list N) (b : bool) : graph :=
     (g_deps g) (g_targets g) (g_tdirs g) (g_avail g) (g_threshold g) in
   fold_left (fun acc k => run_trigger trg_node_detached k None acc)
             (if trg_node_detached_on_change_only then flipped else ks) g1.
+
+(* step_node_undefer_reattached (present or not: trg_undefer_on_reattach): AFTER UPDATE OF detached ON
+   node WHEN OLD.detached AND NOT NEW.detached: UPDATE step SET deferred = FALSE WHERE deferred AND
+   node IN (SELECT sink FROM dependency WHERE source = NEW.i) *)
+Definition reattached_nodes (g : graph) (ks : list N) : list N :=
+  map s_key (filter (fun s => mem_N (s_key s) ks && s_detached s) (g_steps g))
+  ++ map f_key (filter (fun f => mem_N (f_key f) ks && f_detached f) (g_files g))
+  ++ map o_key (filter (fun o => mem_N (o_key o) ks && o_detached o) (g_others g)).
+Definition undeferF (g : graph) (ks : list N) (s : step) : step :=
+  if s_deferred s && existsb (fun d => mem_N (d_src d) ks && (d_snk d =? s_key s)) (g_deps g)
+  then set_life s (s_state s) false (s_defer_count s) (s_holding s) else s.
+Definition undefer_consumers (g : graph) (ks : list N) : graph :=
+  with_steps g (map (undeferF g ks) (g_steps g)).
+Definition set_detached_nodes (g : graph) (ks : list N) (b : bool) : graph :=
+  let g' := set_detached_nodes_core g ks b in
+  if trg_undefer_on_reattach && negb b then undefer_consumers g' (reattached_nodes g ks) else g'.
 
 (* RECURSIVE_CHECK_WITH_PRODUCTS *)
 Definition flag_with_products (g : graph) (k : N) : graph :=
